@@ -81,12 +81,13 @@ def corruptions(packet: bytes) -> list:
     """(pos, delta) of single-byte corruptions at positions 3..20 that decode_usb still accepts"""
     from nmea2000.decoder import NMEA2000Decoder
     acc = []
+    dec = NMEA2000Decoder()          # one decoder for the whole sweep: a refusal must not depend on earlier refusals
     for pos in range(2, 20):
         for d in range(1, 256):
             p = bytearray(packet)
             p[pos] = (p[pos] + d) % 256
             try:
-                if NMEA2000Decoder().decode_usb(bytes(p)) is not None:
+                if dec.decode_usb(bytes(p)) is not None:
                     acc.append([pos + 1, d])
             except Exception:              # noqa: BLE001
                 pass
